@@ -47,6 +47,18 @@ CHECKS = {
  "C10": dict(tech="stateless exploration of all merges of a GUI command script with the search thread's labelled steps on the real executable (blocking schedule points; deviation-bounded in quick, all merges in thorough), each schedule on a fresh process and replay-checked",
    text="For seven command scripts every interleaving of the input thread's commands with the search thread's held points {enter, armed, first iteration done, before bestmove, after bestmove, exit} that respects the GUI protocol is executed on the real binary; per schedule every go must be answered by exactly one bestmove legal in the position it was given, a processed stop must bring the bestmove within 2 s, every isready a readyok, and nothing may be reported as refused. Quick: all schedules with <= 2 deviations from the default order; thorough: all of them.",
    ref="2/C10", note="Trusted base: the schedule-point hand-shake in src/rce_verif.rs and the controller. Interleavings finer than the labelled points are not explored; an unbounded search is kept at its first iteration boundary until a stop is sent (a stop mid-iteration is observationally the same: the flag is read only at polls).", engine="scheduler"),
+ "C08": dict(tech="explicit-state exploration of game paths replayed through the real UCI command loop, exhaustive enumeration of the 20480-string coordinate-notation alphabet per sampled position, all single-move corruptions of each path, and all command sequences up to length 4 against a 1-variable session model; conformance sessions on the real executable",
+   text="Every path of an explorer walk is sent as 'position fen F moves ...' (and 'position startpos moves ...') through the real uci_loop inside a session that already holds another position; the resulting session position must equal the oracle's position after those moves in every component, with the same key and repetition record as the game played move by move. For a subset of positions every from-to-suffix string is accepted exactly when legal; every single-move corruption of a path must leave the previous position in force; all 1555 sequences of <=4 commands over {position A, position B, B with an illegal move, position with en passant, ucinewgame, isready} must end in the model's position.",
+   ref="2/C08", note=WALK_NOTE + " FEN arguments are valid six-field FENs.", engine="sessions"),
+ "C11": dict(tech="exhaustive comparison over a (position, depth) grid of the engine's fixed-depth result (cache neutralised by hook) with the exact minimax value of its look-ahead game computed by an unpruned reference search on the oracle (R0), with a textbook alpha-beta (R1) validated against R0 where R0 is too expensive",
+   text="For each position (with and without game history, clocks near 100, one ply away from the base set) and each depth the reference can afford, the engine's root score must equal the exact value of the look-ahead game defined in the property, and the reference value of the move it picked must equal that root value. The reference shares no code with the engine (oracle move generator, own material count, plain negamax).",
+   ref="2/C11", note="Trusted base: the reference searches (R1 == R0 is re-checked on every pair R0 can afford; a mismatch is a machinery error) and the tt_neutralise hook. Depths beyond the reference's node cap are not covered.", engine="refsearch"),
+ "C12": dict(tech="exhaustive enumeration of cache histories (all sequences of <=2 earlier completed searches at depths 1..4, 21 per position and depth) over all solver-classified positions in the neighbourhood of mating seeds, judged by an exhaustive mate solver on the oracle",
+   text="Every position within the bound of the mating/tactical seeds that the exhaustive solver classifies as mate-in-1, mate-in-2 or avoidable mate-in-1 threat is searched to depth 3 and 4 with the cache ON after every history of earlier completed searches of the same position; the chosen move must mate / keep a forced mate / not allow a mate in one.",
+   ref="2/C12", note="Trusted base: the mate solver on the oracle. 'Keeps a forced mate' accepts any forced mate the solver establishes within two more attacker moves.", engine="refsearch"),
+ "C16": dict(tech="complete enumeration of a (position, depth) grid, each pair searched twice in one process and in three concurrently running worker processes, plus concurrent runs of the bench subcommand compared with each other and with separately computed fresh-cache node counts",
+   text="All (best move, score, nodes) triples of the grid must agree within a process (cache emptied in between) and across three different processes under full CPU load; concurrent bench runs must print the same node total, which must equal the sum of the 62 positions searched one by one from an empty cache.",
+   ref="2/C16", note="Hash seeds and OS scheduling cannot be enumerated or owned without rewriting engine lines: those two dimensions are sampled (3 processes per pair); the check can refute determinism but supports it only for the causes it exercises.", engine="cutpoints"),
 }
 
 NOT_YET = {}
@@ -85,6 +97,7 @@ def main():
         {"name": "cutpoints", "path": "/verif/harness/src/verif/cutprops.rs", "serves_properties": ["C09","C13","C14"], "kind_free_text": "stateless re-execution of the real search once per interruption point (node budget / emulated stop / virtual clock) in single-threaded worker processes"},
         {"name": "sessions", "path": "/verif/harness/src/verif/session.rs", "serves_properties": ["C08","C09","C14","C15"], "kind_free_text": "bounded enumeration of UCI command sessions on the real executable against a 1-variable session model"},
         {"name": "tables", "path": "/verif/harness/src/verif/tablesprop.rs", "serves_properties": ["C06"], "kind_free_text": "complete input-domain enumeration"},
+        {"name": "refsearch", "path": "/verif/harness/src/verif/refsearch.rs", "serves_properties": ["C11","C12"], "kind_free_text": "reference negamax / alpha-beta and exhaustive mate solver on the oracle, compared with real searches in worker processes"},
         {"name": "scheduler", "path": "/verif/harness/src/verif/sched.rs", "serves_properties": ["C10"], "kind_free_text": "stateless schedule explorer over the real executable: choice-sequence DFS with deviation bound, schedule points block the engine's threads until released"},
         {"name": "explorer", "path": "/verif/harness/src/verif/explore.rs", "serves_properties": ["C01","C02","C03","C04","C05"], "kind_free_text": "explicit-state DFS over the engine's real make/unmake with an independent oracle in lock-step (16 threads)"},
       ],
